@@ -281,6 +281,7 @@ def shards(tier, seed):
         out.append(("hostile", LH, t0))
     out.append(("literals",))
     out.append(("isolation",))
+    out.append(("aliasing",))
     for i in range(len(operand_forms(True, True))):
         out.append(("trees", "float", i))
         if tier != "quick":
@@ -574,6 +575,42 @@ def run_isolation(acc):
     acc.sample({"clause": "isolation", "history": steps, "probe": ISO_STRINGS[0], "expected": "3 m in every registry that was given no preprocessor"})
 
 
+# ----------------------------------------------------------------------------- what a parse returns belongs to the caller
+
+ALIAS_STRINGS = ["km", "m", "(s)", "+m", "-s", "degC", "m s", "km/s", "2 m", "m**2", "ms", "kilometer", "1 m", "m/m"]
+
+
+def run_aliasing(acc):
+    """the value of an expression does not depend on what a caller did with the result of an earlier parse: for every
+    probe string and every entry point, the first result is changed in place (ito, *=, a write into its array) and the
+    string is parsed again — in a plain registry and in one that keeps magnitudes in ndarrays"""
+    for regname, kw in (("plain", {}), ("force_ndarray", {"force_ndarray": True})):
+        reg = regs.default("float", fresh=True, **kw)
+        entries = {"parse_expression": reg.parse_expression, "__call__": reg, "Quantity(str)": lambda x: reg.Quantity(x), "parse_units": lambda x: reg.Quantity(1.0, reg.parse_units(x))}
+        for st in ALIAS_STRINGS:
+            for ename, fn in entries.items():
+                if ename == "parse_units" and st[0] in "+-12(":
+                    continue
+                first = pint_eval(fn, st)
+                if first[0] != "ok" or not hasattr(first[1], "_units"):
+                    continue
+                before = show(first[1])
+                for mname, mut in (("ito_root_units", lambda q: q.ito_root_units()), ("*= 5", lambda q: q.__imul__(5)), ("ito(kelvin|mm)", lambda q: q.ito("kelvin" if "degC" in st else "millimeter")), ("buffer write", lambda q: q._magnitude.__setitem__(Ellipsis, 99.0))):
+                    acc.ev()
+                    acc.nt(("aliasing", regname, ename, st, mname))
+                    r1 = pint_eval(fn, st)
+                    if r1[0] != "ok":
+                        break
+                    if pint_eval(lambda _: mut(r1[1]), "")[0] != "ok":
+                        continue
+                    again = pint_eval(fn, st)
+                    if again[0] != "ok" or show(again[1]) != before or again[1] is r1[1]:
+                        acc.violation(["aliasing", ename, "parse-result-depends-on-what-was-done-with-an-earlier-result", regname], {"registry": regname, "string": st, "mutation_of_the_first_result": mname}, before, show(again[1]) if again[0] == "ok" else again)
+                        break
+    acc.outcome("aliasing")
+    acc.sample({"clause": "aliasing", "string": "km", "history": ["d = ureg('km')", "d.ito('m')", "ureg('km')"], "expected": "1 kilometer"})
+
+
 def run_parserhelper(acc, maxlen, prefix):
     """ParserHelper.from_string over the names-and-numbers sub-language (no + -)"""
     from pint.util import ParserHelper
@@ -740,6 +777,8 @@ def run_shard(acc, shard, tier, seed):
         run_trees(acc, shard[1], tier, shard[2])
     elif k == "isolation":
         run_isolation(acc)
+    elif k == "aliasing":
+        run_aliasing(acc)
     else:
         raise core.HarnessError(str(shard))
 
@@ -750,6 +789,8 @@ def replay(rec):
     nt = case.get("registry", "float")
     if site[0] == "isolation":
         run_isolation(acc)
+    elif site[0] == "aliasing":
+        run_aliasing(acc)
     elif site[0] == "no-execution":
         toks = case["string"].split(" ")
         run_hostile(acc, len(toks), toks[0])
